@@ -2,7 +2,7 @@ import argparse
 import os
 import sys
 
-sys.path.insert(0, "/repo")
+sys.path.insert(0, os.environ.get("FVSYM_REPO") or "/repo")
 sys.dont_write_bytecode = True
 
 
